@@ -68,7 +68,7 @@ func (m *c13mem) expect(a uint32) byte {
 }
 
 func C13(r *vf.Run) {
-	r.Rule = "histories of 1-40 Attach calls over overlapping/adjacent/nested/re-attached aligned ranges (from one block to a dozen whole banks, with small overlays inside wide ranges) and misaligned ones, with instrumented fake memories and real memory.RAM/ROM at non-zero offsets; routing of every block in and next to each range, and of the same offsets in neighbouring banks and pages, probed through EaRead/EaWrite against a shadow map, then unprobed mixed sequences of EaRead/EaWrite/EaRead24_wrap with block locality; EaDump over ranges with every start residue and lengths {1,2,15,16,17,31,32,33,4096} across memory/memory and memory/hole boundaries with sentinel-filled output; a cell is (overlap shape), (misaligned residue) or (dump: start residue, length class, boundary kind)"
+	r.Rule = "histories of 1-40 Attach calls over overlapping/adjacent/nested/re-attached aligned ranges (from one block to a dozen whole banks, with small overlays inside wide ranges) and misaligned ones, with instrumented fake memories and real memory.RAM/ROM at non-zero offsets; routing of every block in and next to each range, and of the same offsets in neighbouring banks and pages, probed through EaRead/EaWrite against a shadow map, then unprobed mixed sequences of EaRead/EaWrite/EaRead24_wrap with block locality; EaDump over ranges with every start residue and lengths {1,2,15,16,17,31,32,33,4096} across memory/memory and memory/hole boundaries with sentinel-filled output; plus long-lived buses receiving 67,000+ successful Attach calls each with routing checked after every call; a cell is (overlap shape), (misaligned residue) or (dump: start residue, length class, boundary kind)"
 	r.Assume = []string{"Attach ranges beyond 24 bits or with start > end are outside 'successful Attach calls over aligned ranges'"}
 
 	type probeRes struct {
@@ -556,7 +556,127 @@ func C13(r *vf.Run) {
 			r.MergeCells(cells)
 		})
 	}
+	if r.Phase("long-lived-bus") {
+		// one bus that keeps being re-attached for its whole life (a host swapping handlers every
+		// frame): tens of thousands of successful Attach calls, routing checked after every one
+		nbus := r.N(4, 16)
+		total := r.N(67000, 200000)
+		r.Parallel(runtime.NumCPU(), nbus, func(w, bi int) {
+			g := r.Rand("longbus").Fork(uint64(bi))
+			b, _ := bus.New()
+			owner := make([]int32, 1<<20) // block -> index of the memory attached last (-1: never attached)
+			for i := range owner {
+				owner[i] = -1
+			}
+			var fakes []*fakeMem
+			var live []uint32 // blocks known to be attached (sample)
+			cells := map[string]int64{}
+			wins := []uint32{0x000000, uint32(1+g.Intn(0xFD)) << 16, 0xFF0000}
+			check := func(a uint32, n int, why string) bool {
+				mi := owner[a>>4]
+				res := read(b, a)
+				r.Eval(1)
+				if mi < 0 {
+					if !res.panicked {
+						r.Fail("long-lived-unattached-served", fmt.Sprintf("after %d successful Attach calls on one bus: read of never-attached $%06x returned %02x instead of failing (%s)", n, a, res.v, why), nil)
+						return false
+					}
+					return true
+				}
+				f := fakes[mi]
+				if res.panicked {
+					r.Fail("long-lived-attached-fails", fmt.Sprintf("after %d successful Attach calls on one bus: read of $%06x failed although memory #%d is attached there (%s)", n, a, mi, why), nil)
+					return false
+				}
+				if f.lastAddr != a || res.v != fakeVal(f.id, a) {
+					r.Fail("long-lived-routing", fmt.Sprintf("after %d successful Attach calls on one bus: read of $%06x = %02x, want %02x from memory #%d, the last attached there (it last saw address $%06x) (%s)", n, a, res.v, fakeVal(f.id, a), mi, f.lastAddr, why), nil)
+					return false
+				}
+				return true
+			}
+			n := 0
+			for n < total && !r.TooMany() {
+				win := wins[g.Intn(len(wins))]
+				sb := win>>4 + uint32(g.Intn(0x1000))
+				nb := uint32(1 + g.Intn(8))
+				if g.Intn(64) == 0 {
+					nb = uint32(1 + g.Intn(0x400))
+				}
+				eb := sb + nb - 1
+				if eb > 0xFFFFF {
+					eb = 0xFFFFF
+				}
+				f := &fakeMem{id: len(fakes)}
+				if err := b.Attach(f, "m", sb<<4, eb<<4|15); err != nil {
+					cells["long:attach-refused"]++ // not a successful Attach: nothing to expect from it
+					if cells["long:attach-refused"] > 1000 {
+						break
+					}
+					continue
+				}
+				n++
+				fakes = append(fakes, f)
+				for k := sb; k <= eb; k++ {
+					owner[k] = int32(len(fakes) - 1)
+				}
+				if len(live) < 4096 {
+					live = append(live, sb)
+				} else {
+					live[g.Intn(len(live))] = eb
+				}
+				ok := check(sb<<4|uint32(g.Intn(16)), n, "inside the range just attached") &&
+					check(eb<<4|uint32(g.Intn(16)), n, "end of the range just attached") &&
+					check(live[g.Intn(len(live))]<<4|uint32(g.Intn(16)), n, "a range attached earlier")
+				if ok && sb > 0 {
+					ok = check((sb-1)<<4|15, n, "block before the range just attached")
+				}
+				if ok && g.Intn(4) == 0 {
+					ok = check(uint32(g.Intn(1<<20))<<4, n, "random block")
+				}
+				if !ok {
+					break
+				}
+				if n%4096 == 0 {
+					// EaDump across the newest range and its surroundings against byte-wise expectations
+					start := (sb << 4) - uint32(g.Intn(40))
+					if start > sb<<4 {
+						start = 0
+					}
+					length := uint32(48 + g.Intn(200))
+					out := make([]byte, length)
+					for i := range out {
+						out[i] = 0xA7
+					}
+					var cnt uint32
+					pan := vf.Try(func() { cnt = uint32(b.EaDump(start, start+length-1, out)) })
+					if pan == nil {
+						for i := uint32(0); i < length; i++ {
+							a := start + i
+							want := byte(0xA7)
+							if mi := owner[a>>4]; mi >= 0 {
+								want = fakeVal(fakes[mi].id, a)
+							}
+							if out[i] != want || cnt != length {
+								r.Fail("long-lived-dump", fmt.Sprintf("after %d successful Attach calls on one bus: EaDump($%06x,+%d) returned %d, position %d = %02x want %02x", n, start, length, cnt, i, out[i], want), nil)
+								break
+							}
+						}
+					}
+					cells["long:dumps"]++
+				}
+				switch {
+				case n == 65535, n == 65536, n == 65537:
+					cells[fmt.Sprintf("long:attach-count-%d", n)]++
+				case n%16384 == 0:
+					cells[fmt.Sprintf("long:attach-count-%dk", n/1024)]++
+				}
+			}
+			r.MergeCells(cells)
+		})
+	}
 	if r.OnlyPhase == "" {
+		r.Require("long:attach-count-65536")
+		r.Require("long:attach-count-65537")
 		for _, c := range []string{"seq:read24", "seq:write", "attach:nested", "attach:wide", "attach:nested-in-wide", "attach:reattach-same", "attach:adjacent-after", "attach:overlap-tail", "dump-boundary:mem>mem", "dump-boundary:mem>hole", "dump-boundary:hole>mem"} {
 			r.Require(c)
 		}
